@@ -27,6 +27,7 @@ theorem declareClause_uinv (c : Clause) (s : Store) (tx : Tx) (e : Option Err) (
   | update => exact h.same rfl
   | setState => exact h.same rfl
   | retract => exact h.same rfl
+  | purge => exact h.same rfl
 
 theorem PlanInv.declare {p : PS} (h : PlanInv [] p) (c : Clause) : PlanInv [] (p.andThen (declareClause c)) := by
   unfold PS.andThen
@@ -154,8 +155,10 @@ theorem writeLoop_ok (q : Nat) (s0 : Store) (staged : List (Id × Staged)) (hwf0
             -- the stored row of `i` carries `t` when `x` was loaded
             have hi0 : x.isNew = false → ∃ ei, s0.elems i = some ei ∧ ei.row.tup = some t := by
               intro hnew
-              obtain ⟨_, ei, h1, _, _, _, h5, _⟩ := (hent _ hix).2 hnew
-              exact ⟨ei, h1, by rw [h5]; exact hxt⟩
+              obtain ⟨_, ei, h1, _, himm⟩ := (hent _ hix).2.1 hnew
+              rcases himm with ⟨_, _, h5, _⟩ | ⟨_, _, h5, _⟩
+              · exact ⟨ei, h1, by rw [h5]; exact hxt⟩
+              · rw [h5] at hxt; cases hxt
             rcases horig j ej t hjk hej hejt with h0 | ⟨y, hy, hyt⟩
             · -- a row planning saw
               cases hnew : x.isNew with
@@ -169,15 +172,19 @@ theorem writeLoop_ok (q : Nat) (s0 : Store) (staged : List (Id × Staged)) (hwf0
                   cases hynew : y.isNew with
                   | true => exact hji (hdis (j, y) (i, x) hy hix hjk hik hynew hnew t hyt hxt)
                   | false =>
-                      obtain ⟨_, ej0, h1, _, _, _, h5, _⟩ := (hent _ hy).2 hynew
-                      exact habs _ hix hik hnew t hxt j ej0 hjk h1 (by rw [h5]; exact hyt)
+                      obtain ⟨_, ej0, h1, _, himm⟩ := (hent _ hy).2.1 hynew
+                      rcases himm with ⟨_, _, h5, _⟩ | ⟨_, _, h5, _⟩
+                      · exact habs _ hix hik hnew t hxt j ej0 hjk h1 (by rw [h5]; exact hyt)
+                      · rw [h5] at hyt; cases hyt
               | false =>
                   obtain ⟨ei, hei, heit⟩ := hi0 hnew
                   cases hynew : y.isNew with
                   | true => exact habs _ hy hjk hynew t hyt i ei hik hei heit
                   | false =>
-                      obtain ⟨_, ej0, h1, _, _, _, h5, _⟩ := (hent _ hy).2 hynew
-                      exact hji (ht0 j i ej0 ei t hjk hik h1 hei (by rw [h5]; exact hyt) heit)
+                      obtain ⟨_, ej0, h1, _, himm⟩ := (hent _ hy).2.1 hynew
+                      rcases himm with ⟨_, _, h5, _⟩ | ⟨_, _, h5, _⟩
+                      · exact hji (ht0 j i ej0 ei t hjk hik h1 hei (by rw [h5]; exact hyt) heit)
+                      · rw [h5] at hyt; cases hyt
         have hw : ∃ s1, writeOne s q i x = .ok s1 := by
           unfold writeOne
           cases hel : s.elems i with
@@ -224,7 +231,7 @@ theorem exec_no_refusedWrite {s : Store} (hwf : WF s) (ht : TInv s) (st : Stmt) 
               have hsh := hp.n.newShell p hpm hnew
               rw [hinv.raw p.1]; simp [hsh]
           | false =>
-              obtain ⟨_, el, h1, _⟩ := (hp.s.entries p hpm).2 hnew
+              obtain ⟨_, el, h1, _⟩ := (hp.s.entries p hpm).2.1 hnew
               rw [h1]; rfl
         have := writeLoop_ok (planned s st).tx.seq (planned s st).s (planned s st).tx.staged hinv.wf hpt hp.s.entries hexist
           hp.u.absent hp.u.distinct (planned s st).tx.staged hp.s.keys (fun _ hp' => hp') (planned s st).s [] hinv.wf rfl
